@@ -217,7 +217,7 @@ theorem and_neg4 (n : Nat) (h : n < 4611686018427387904) :
   rfl
 
 theorem bytesN_append (x y : List UInt8) : bytesN (x ++ y) = bytesN x ++ bytesN y := by simp [bytesN]
-theorem bytesN_take' (x : List UInt8) (k : Nat) : bytesN (x.take k) = (bytesN x).take k := by simp [bytesN, List.map_take]
+theorem bytesN_takeN (x : List UInt8) (k : Nat) : bytesN (x.take k) = (bytesN x).take k := by simp [bytesN, List.map_take]
 theorem bytesN_zeros (m : Nat) : bytesN (List.replicate m 0) = zeros m := by simp [bytesN, zeros]
 
 /-- what the three splice facts give for a write of `W` at `p` -/
@@ -296,7 +296,7 @@ theorem packCore_spec (t : UInt16) (v buf : List UInt8) (p : Nat) (hL : buf.leng
       show Res.ok _ = _
       congr 1
       unfold copyTrunc
-      simp only [List.length_append, hol, bytesN_append, hHb, ← hW1, ← hW2, bytesN_take', bytesN_zeros, bytesN_length,
+      simp only [List.length_append, hol, bytesN_append, hHb, ← hW1, ← hW2, bytesN_takeN, bytesN_zeros, bytesN_length,
         List.length_take, Nts.be16, List.length_cons, List.length_nil, List.append_assoc]
       congr 4
       all_goals (try congr 1)
